@@ -166,3 +166,28 @@ def c13_3(cx):
     cx.check(bool(cf.calls(r"cyc_initial$")), "cycle_initial is the user's initial function", body=cf, key="initial-wiring")
     rc = cx.fn(r"^<_::f_fixpoint_Configuration_ as salsa::function::Configuration>::recover_from_cycle$", s)
     cx.check(bool(rc.calls(r"cyc_recover$")), "cycle_fn is called by recover_from_cycle", body=rc, key="recover-wiring")
+
+
+@ob("C13.2", ["C13", "C12"], "generated glue that swaps the arguments of the user's cycle functions (or substitutes another default for a missing cycle_fn) changes the value every participant of a cycle returns", kind="FLOW (expanded macros: argument wiring)")
+@needs_specimen
+def c13_2(cx):
+    """Generated Configuration glue: cycle_initial(db, id, input) forwards (db, id, input) positionally to the user's cycle_result / cycle_initial function; recover_from_cycle(db, cycle, last, value, input) forwards all five positionally to the user's cycle_fn, and without a cycle_fn returns `value` (the new value) unchanged; execute forwards (db, input); id_to_input = FromIdWithDb::from_id(id, zalsa)."""
+    s = spec(cx)
+    for fn, user in (("f_fallback", r"cyc_result$"), ("f_fixpoint", r"cyc_initial$"), ("f_fixpoint_default", r"cyc_initial$")):
+        b = cx.fn(r"^<_::%s_Configuration_ as salsa::function::Configuration>::cycle_initial$" % fn, s)
+        c = cx.one_call(b, user, "user function in %s::cycle_initial" % fn)
+        cx.check(cx.args(c) == ["$1", "$2", "$3"], "%s: cycle_initial forwards (db, id, input) in order" % fn, c, {"args": cx.args(c)}, key="initial-args " + fn)
+        cx.flow(b, b.origin_local(0), [r"^cyc_(result|initial)\(\$1, \$2, \$3\)$"], [r"^const:"], "%s: and returns the user's value" % fn)
+    r = cx.fn(r"^<_::f_fixpoint_Configuration_ as salsa::function::Configuration>::recover_from_cycle$", s)
+    c = cx.one_call(r, r"cyc_recover$", "cycle_fn call")
+    cx.check(cx.args(c) == ["$1", "$2", "$3", "$4", "$5"], "recover_from_cycle forwards (db, cycle, last_provisional, value, input) in order", c, {"args": cx.args(c)}, key="recover-args")
+    cx.flow(r, r.origin_local(0), [r"^cyc_recover\(\$1, \$2, \$3, \$4, \$5\)$"], [r"^\$[34]$"], "and returns the cycle_fn's result")
+    for fn in ("f_fixpoint_default", "f_fallback"):
+        d = cx.fn(r"^<_::%s_Configuration_ as salsa::function::Configuration>::recover_from_cycle$" % fn, s)
+        cx.flow(d, d.origin_local(0), [r"^\$4$"], [r"^\$3$", r"^const:"], "%s: without a cycle_fn the new value is kept (not the last provisional one)" % fn)
+    for fn in ("f_fixpoint", "f_fallback", "f_plain"):
+        e = cx.fn(r"^<_::%s_Configuration_ as salsa::function::Configuration>::execute$" % fn, s)
+        c = cx.one_call(e, r"::execute::inner_$", "user body in %s::execute" % fn)
+        cx.check(cx.args(c) == ["$1", "$2"], "%s: execute forwards (db, input)" % fn, c, {"args": cx.args(c)}, key="execute-args " + fn)
+        i = cx.fn(r"^<_::%s_Configuration_ as salsa::function::Configuration>::id_to_input$" % fn, s)
+        cx.flow(i, i.origin_local(0), [r"^<\w+ as salsa::plumbing::FromIdWithDb>::from_id\(\$2, \$1\)$"], [r"^const:"], "%s: id_to_input rebuilds the key from the id asked" % fn)
